@@ -292,13 +292,50 @@ def run_job(job):
                                              "scope": scope_list(ps.get("scope")), "at_exp": ps.get("exp")}
         views["delivered"] = {"scope": scope_list(obs["delivered"].get("scope")), "client": obs["delivered"].get("client_id")}
         rec["views"] = views
-        # ---- refresh
-        if "refresh_response" in obs:
-            rr = obs["refresh_response"]
-            ks, hs, ps = jose_shape(rr.get("access_token"))
-            rec["refresh"] = {"scope": scope_list(rr.get("scope")), "has_access_token": "access_token" in rr,
-                              "jwt_sub": ps.get("sub") if ks == "jws" else None,
-                              "jwt_client": ps.get("client_id") if ks == "jws" else None}
+        # ---- refresh rounds: the same observation points, read again for the refreshed tokens
+        rounds = []
+        for rd in obs.get("refresh_rounds") or []:
+            tr, st2 = rd["token_response"], rd["rp_state"]
+            new_at, new_idt = tr.get("access_token"), tr.get("id_token")
+            toks2 = rd.get("op_tokens") or []
+            at2 = next((t for t in toks2 if t["class"] == "access_token" and t["value"] == new_at), None)
+            idt2 = next((t for t in toks2 if t["class"] == "id_token" and t["value"] == new_idt), None) if new_idt else None
+            g2 = rd.get("op_grant") or {}
+            k3, h3, p3 = jose_shape(new_idt)
+            vidt2 = st2.get("__verified_id_token") or {}
+            tt2 = rd.get("token_times") or []
+            n_op, n_rp = tt2[0] if tt2 else (None, None)
+            sess2 = {"client": g2.get("client_id"), "sub": g2.get("sub"), "scope": scope_list(g2.get("scope")),
+                     "nonce": g2.get("nonce"), "at_exp": at2["expires_at"] if at2 else None,
+                     "idt_exp": (p3.get("exp") if k3 == "jws" else vidt2.get("exp")) if new_idt else None,
+                     "idt_exp_recorded": idt2["expires_at"] if idt2 else None,
+                     "at_scope": scope_list(at2["scope"]) if at2 else None, "user": g.get("user_id")}
+            v2 = {"token_response": {"scope": scope_list(tr.get("scope")),
+                                     "at_exp": (n_op + int(tr["expires_in"])) if ("expires_in" in tr and n_op is not None) else None},
+                  "rp": {"client": obs["rp_client_id"], "sub": st2.get("sub") or vidt2.get("sub"),
+                         "scope": scope_list(st2.get("scope")), "nonce": st2.get("nonce"),
+                         "at_exp": st2.get("__expires_at"), "idt_exp": vidt2.get("exp") if new_idt else None}}
+            if new_idt:
+                v2["id_token"] = {"client": one(vidt2.get("aud")), "sub": vidt2.get("sub"), "nonce": vidt2.get("nonce"),
+                                  "idt_exp": vidt2.get("exp")}
+            if "userinfo" in rd:
+                v2["userinfo"] = {"sub": rd["userinfo"].get("sub")}
+            ir2 = rd.get("introspection")
+            if ir2 is not None:
+                v2["introspection"] = {"client": ir2.get("client_id"), "sub": ir2.get("sub"),
+                                       "scope": scope_list(ir2.get("scope")), "at_exp": ir2.get("exp")}
+            k4, h4, p4 = jose_shape(new_at)
+            if k4 == "jws":
+                v2["jwt_access_token"] = {"client": p4.get("client_id"), "sub": p4.get("sub"),
+                                          "scope": scope_list(p4.get("scope")), "at_exp": p4.get("exp")}
+            rounds.append({"round": rd["round"], "cell": cell, "scope": job["scope"], "has_token": new_at is not None,
+                           "at_from": "token" if new_at else None, "idt_from": "token" if new_idt else None,
+                           "session": sess2, "views": v2, "now_op": n_op, "now_rp": n_rp,
+                           "rp_holds_new_token": st2.get("access_token") == new_at,
+                           "introspection_active": (ir2 or {}).get("active"),
+                           "access_token_shape": k4, "userinfo_error": rd.get("userinfo_error"),
+                           "refresh_token_shape": jose_shape(tr.get("refresh_token"))[0] if tr.get("refresh_token") else None})
+        rec["refresh_rounds"] = rounds
         return rec
     finally:
         rec["wall"] = round(time.time() - t0, 3)
@@ -346,13 +383,17 @@ def coq_view(v):
                                            s_opt(v.get("nonce")), zo(v.get("at_exp")), zo(v.get("idt_exp")))
 
 
-def coq_views_case(rec):
-    s = rec["session"]
-    vs = rec["views"]
-    sess = "(mkSession %s %s %s %s %s %s)" % (
+def coq_session(s):
+    return "(mkSession %s %s %s %s %s %s)" % (
         coq_str(s["client"]), coq_str(s["sub"]), coq_list([coq_str(x) for x in s["scope"]], "pystr"),
         s_opt(s["nonce"]), coq_z(s["at_exp"] if s["at_exp"] is not None else 0),
         coq_z(s["idt_exp"] if s["idt_exp"] is not None else 0))
+
+
+def coq_views_case(rec):
+    s = rec["session"]
+    vs = rec["views"]
+    sess = coq_session(s)
 
     def vo(name):
         return "(Some %s)" % coq_view(vs[name]) if name in vs else "(@None view)"
@@ -432,6 +473,78 @@ def expects(rt):
 
 def expected_default_delivery(rt):
     return "query" if rt == "code" else "fragment"
+
+
+def compare_views(ctx, rec, tag):
+    """every pair of views of one (possibly refreshed) token set agrees on every field both of them state;
+    tag = "" for the flow itself, ":refreshN" for the state after the N-th refresh"""
+    c = rec["cell"]
+    cellname = {k: v for k, v in c.items()}
+    vs = dict(rec["views"])
+    s = rec["session"]
+    vs["op_session"] = {"client": s["client"], "sub": s["sub"], "scope": s["scope"], "nonce": s["nonce"],
+                        "at_exp": s["at_exp"], "idt_exp": s["idt_exp_recorded"]}
+    if s.get("at_scope") is not None:
+        vs["op_access_token"] = {"scope": s["at_scope"]}
+    skew = (rec["now_rp"] - rec["now_op"]) if rec.get("now_op") is not None else 0
+    names = sorted(vs)
+    for f in ("client", "sub", "scope", "nonce", "at_exp", "idt_exp"):
+        for i, a in enumerate(names):
+            for b in names[i + 1:]:
+                x, y = vs[a].get(f), vs[b].get(f)
+                if x is None or y is None:
+                    continue
+                if f == "at_exp":      # the RP computes its expiry from its own clock: exact up to the latency
+                    if a == "rp":
+                        x = x - skew
+                    if b == "rp":
+                        y = y - skew
+                if x != y:
+                    sig = "views:%s%s" % (f, tag)
+                    if (f == "idt_exp" and "op_session" in (a, b) and vs["op_session"].get("idt_exp") == 0
+                            and rec.get("idt_from") == "authz"):     # ID Token minted at the authorization endpoint
+                        sig = "idt-exp-unrecorded"     # the session database holds expires_at = 0 for this ID Token
+                    ctx.violation(sig, "%s differs between views%s: %s has %r, %s has %r (cell %s, scope %s)" % (
+                        f, tag, a, vs[a].get(f), b, vs[b].get(f), json.dumps(cellname, default=str), rec["scope"]), rec)
+
+
+def refresh_oracle(ctx, rec):
+    """after every refresh: the refreshed access token is the one the RP holds, it is active, of the configured format,
+    its views agree, and client / subject / scope / nonce are still those of the original grant"""
+    c = rec["cell"]
+    s0 = rec["session"]
+    if "offline_access" in rec["scope"] and expects(c["rt"])[2] and len(rec.get("refresh_rounds") or []) < 2:
+        ctx.violation("refresh-rounds", "offline_access granted through the token endpoint but only %d refresh round(s) "
+                      "could be made" % len(rec.get("refresh_rounds") or []), rec)
+    for rr in rec.get("refresh_rounds") or []:
+        tag = ":refresh%d" % rr["round"]
+        if not rr["has_token"]:
+            ctx.violation("refresh-failed", "refresh %d produced no access token" % rr["round"], rec)
+            continue
+        if not rr["rp_holds_new_token"]:
+            ctx.violation("refresh-rp-state", "after refresh %d the RP does not hold the refreshed access token" % rr["round"], rec)
+        if rr.get("introspection_active") is not True:
+            ctx.violation("introspection-inactive" + tag, "the refreshed access token is not reported active", rec)
+        if rr.get("userinfo_error"):
+            ctx.violation("userinfo" + tag, "userinfo with the refreshed access token fails: %s" % rr["userinfo_error"], rec)
+        if (rr["access_token_shape"] == "jws") != bool(c["at_jwt"]):
+            ctx.violation("access-token-format" + tag, "refreshed access token is %s" % rr["access_token_shape"], rec)
+        if rr.get("refresh_token_shape") is not None and (rr["refresh_token_shape"] == "jws") != bool(c["rf_jwt"]):
+            ctx.violation("refresh-token-format" + tag, "refreshed refresh token is %s" % rr["refresh_token_shape"], rec)
+        for f in ("client", "sub", "scope", "nonce"):
+            if rr["session"].get(f) != s0.get(f):
+                ctx.violation("views:%s%s" % (f, tag), "%s of the session changed with the refresh: %r -> %r" % (
+                    f, s0.get(f), rr["session"].get(f)), rec)
+        for n in ("token_response", "rp", "introspection", "userinfo") + (("jwt_access_token",) if c["at_jwt"] else ()):
+            if n not in rr["views"]:
+                ctx.violation("view-missing" + tag, "no %s view after refresh %d" % (n, rr["round"]), rec)
+        for n, fs in (("token_response", ("scope", "at_exp")), ("rp", ("client", "sub", "scope", "at_exp")),
+                      ("introspection", ("client", "sub", "scope", "at_exp"))):
+            for f in fs:
+                if rr["views"].get(n, {}).get(f) is None:
+                    ctx.violation("view-field-missing" + tag, "%s view has no %s after refresh %d" % (n, f, rr["round"]), rec)
+        if rr["session"].get("at_exp") is not None:
+            compare_views(ctx, dict(rr, cell=c, scope=rec["scope"]), tag)
 
 
 def oracle(ctx, rec, T):
@@ -526,32 +639,8 @@ def oracle(ctx, rec, T):
         if rec.get("introspection_active") is not True:
             ctx.violation("introspection-inactive", "the access token just issued is not reported active", rec)
     # ---- views agree, pairwise, field by field
-    vs = dict(rec["views"])
+    compare_views(ctx, rec, "")
     s = rec["session"]
-    vs["op_session"] = {"client": s["client"], "sub": s["sub"], "scope": s["scope"], "nonce": s["nonce"],
-                        "at_exp": s["at_exp"], "idt_exp": s["idt_exp_recorded"]}
-    if s.get("at_scope") is not None:
-        vs["op_access_token"] = {"scope": s["at_scope"]}
-    skew = rec["now_rp"] - rec["now_op"]
-    names = sorted(vs)
-    for f in ("client", "sub", "scope", "nonce", "at_exp", "idt_exp"):
-        for i, a in enumerate(names):
-            for b in names[i + 1:]:
-                x, y = vs[a].get(f), vs[b].get(f)
-                if x is None or y is None:
-                    continue
-                if f == "at_exp":      # the RP computes its expiry from its own clock: exact up to the latency
-                    if a == "rp":
-                        x = x - skew
-                    if b == "rp":
-                        y = y - skew
-                if x != y:
-                    sig = "views:%s" % f
-                    if (f == "idt_exp" and "op_session" in (a, b) and vs["op_session"].get("idt_exp") == 0
-                            and rec.get("idt_from") == "authz"):     # ID Token minted at the authorization endpoint
-                        sig = "idt-exp-unrecorded"     # the session database holds expires_at = 0 for this ID Token
-                    ctx.violation(sig, "%s differs between views: %s has %r, %s has %r (cell %s, scope %s)" % (
-                        f, a, vs[a].get(f), b, vs[b].get(f), json.dumps(cellname, default=str), rec["scope"]), rec)
     # required views are present
     need = ["rp"] + (["id_token"] if want_idt else []) + (["token_response", "userinfo", "introspection"] if rec["has_token"] else [])
     if rec["has_token"] and c["at_jwt"]:
@@ -573,16 +662,7 @@ def oracle(ctx, rec, T):
     gs = set(s["scope"] or [])
     if not gs <= set(rec["scope"]) | {"openid"}:
         ctx.violation("views:scope", "granted scope %r exceeds the requested %r" % (sorted(gs), rec["scope"]), rec)
-    if "refresh" in rec:
-        r = rec["refresh"]
-        if not r["has_access_token"]:
-            ctx.violation("refresh-failed", "refresh produced no access token", rec)
-        if r["scope"] is not None and r["scope"] != s["scope"]:
-            ctx.violation("views:scope", "refresh response scope %r differs from the grant's %r" % (r["scope"], s["scope"]), rec)
-        if r["jwt_sub"] is not None and r["jwt_sub"] != s["sub"]:
-            ctx.violation("views:sub", "refreshed JWT access token sub differs from the grant's", rec)
-        if r["jwt_client"] is not None and r["jwt_client"] != s["client"]:
-            ctx.violation("views:client", "refreshed JWT access token client_id differs from the grant's", rec)
+    refresh_oracle(ctx, rec)
 
 
 # ------------------------------------------------------------------ generators
@@ -794,6 +874,18 @@ def response_type_coverage(rng, T):
     return jobs
 
 
+def refresh_cells(rng, T):
+    """JWT / opaque access token x JWT / opaque refresh token x two client-authentication methods (one secret based, one
+    JWT based): code exchange and two refreshes each"""
+    jobs = []
+    for at in (False, True):
+        for rf in (False, True):
+            for auth in ("client_secret_post", "private_key_jwt"):
+                jobs.append(make_job(rng, base_cell(at_jwt=at, rf_jwt=rf, auth=auth, rt=rng.choice(["code", "code id_token"])),
+                                     offline=True, kind="refresh:%s-at:%s-rt" % ("jwt" if at else "opaque", "jwt" if rf else "opaque")))
+    return jobs
+
+
 def fixed_witnesses():
     """One fully fixed flow per entry of known_findings.txt (nothing drawn from the seed): the KNOWN-FINDING lines
     are printed on every run, for every VERIF_SEED; these are the C12_refuted_* cells of Props/C12.v."""
@@ -872,7 +964,7 @@ def prepare_keys():
 
 
 def evaluate(ctx, recs, T):
-    flow_cases, view_cases = [], []
+    flow_cases, view_cases, refresh_cases = [], [], []
     for rec in recs:
         c = rec["cell"]
         out = rec["outcome"]
@@ -899,18 +991,35 @@ def evaluate(ctx, recs, T):
             if views_case_ok(rec):
                 view_cases.append((coq_views_case(rec), {"cell": c, "scope": rec["scope"], "session": rec["session"],
                                                          "views": rec["views"], "now_op": rec["now_op"], "now_rp": rec["now_rp"]}))
+                prev, now0 = rec["session"], rec["now_op"]
+                for rr in rec.get("refresh_rounds") or []:
+                    if not (views_case_ok(rr) and rr.get("now_op") is not None and prev.get("idt_exp") is not None):
+                        ctx.mismatch("refresh round without a usable provider session record", small, impl=rr.get("session"))
+                        break
+                    # lifetimes as the FIRST token response showed them (expiry minus the provider clock then)
+                    lives = (rr["now_op"], rec["session"]["at_exp"] - now0, rec["session"]["idt_exp"] - now0)
+                    refresh_cases.append(("(%s, (%s, %s, %s), %s)" % (coq_session(prev), coq_z(lives[0]), coq_z(lives[1]),
+                                                                       coq_z(lives[2]), coq_views_case(rr)),
+                                          {"cell": c, "scope": rec["scope"], "round": rr["round"], "before": prev,
+                                           "session": rr["session"], "views": rr["views"], "now_op": rr["now_op"],
+                                           "now_rp": rr["now_rp"], "kind": rec["kind"], "claims": rec["claims"],
+                                           "user": rec["user"], "latency": rec["latency"]}))
+                    prev = rr["session"]
             else:
                 ctx.mismatch("completed flow without a usable provider session record", small, impl=rec.get("session"))
     imports = ["Lib.Base", "Lib.PyStr", "Lib.InteropTy", "Gen.Supports", "Model.Interop"]
     ctx.coq_check_cases(imports, "cfg * inp * outcome", "chk_flow", flow_cases, shard=300, label="flow", diag="diag_flow")
     ctx.coq_check_cases(imports, "views_case", "chk_views", view_cases, shard=150, label="views", diag="diag_views")
+    ctx.coq_check_cases(imports, "session * (Z * Z * Z) * views_case", "chk_refresh", refresh_cases, shard=150,
+                        label="refresh", diag="diag_refresh")
+    ctx.count("refresh-rounds", len(refresh_cases))
 
 
 def run(ctx):
     rng = ctx.rng
     T = tables()
     prepare_keys()
-    jobs = fixed_witnesses() + response_type_coverage(rng, T) + limit_matrix(rng, T)
+    jobs = fixed_witnesses() + response_type_coverage(rng, T) + refresh_cells(rng, T) + limit_matrix(rng, T)
     rows = pairwise_rows(rng, T)
     jobs += concretise(rng, rows, T)
     if not ctx.quick:
